@@ -199,6 +199,8 @@ pub struct World {
     pub probes: BTreeMap<String, u64>,
     pub trace: Vec<String>,
     pub keep_trace: bool,
+    /// fault: the blocking pool is stalled (jobs wait at the gate) until this is cleared
+    pub hold_blocking: bool,
 }
 
 pub fn scratch_root() -> PathBuf {
@@ -225,6 +227,7 @@ impl World {
             probes: BTreeMap::new(),
             trace: Vec::new(),
             keep_trace: true,
+            hold_blocking: false,
         }
     }
 
@@ -338,6 +341,9 @@ impl World {
         self.ctrl.wait_quiescent().map_err(Stop::Harness)?;
         // a command call that has just ended on a blocking-pool thread wakes the task awaiting it
         // a moment later: wait until the pool is quiet, so that wake is visible to the next decision
+        if self.hold_blocking {
+            return Ok(());
+        }
         if let Some(rt) = self.rt.as_ref() {
             let m = rt.metrics();
             let t0 = std::time::Instant::now();
@@ -354,6 +360,24 @@ impl World {
         Ok(())
     }
 
+    /// Stall the blocking pool: jobs spawned from now on wait until `release_blocking`.
+    pub fn stall_blocking(&mut self) {
+        self.hold_blocking = true;
+        BLOCKING_GATE.store(false, std::sync::atomic::Ordering::Release);
+    }
+
+    /// Number of blocking-pool threads that are not parked actors (jobs held or running).
+    pub fn blocking_busy(&self) -> usize {
+        let m = self.rt().metrics();
+        m.num_blocking_threads().saturating_sub(self.ctrl.blocking_parked()) + m.blocking_queue_depth()
+    }
+
+    pub fn release_blocking(&mut self) -> R<()> {
+        self.hold_blocking = false;
+        BLOCKING_GATE.store(true, std::sync::atomic::Ordering::Release);
+        self.step_tokio()
+    }
+
     pub fn tokio_runnable(&self) -> bool {
         let m = self.rt().metrics();
         m.global_queue_depth() > 0 || m.worker_local_queue_depth(0) > 0
@@ -364,11 +388,19 @@ impl World {
         let rt = self.rt.as_ref().unwrap();
         let m = rt.metrics();
         let ctrl = self.ctrl.clone();
+        let hold = self.hold_blocking;
         let res: Result<(), String> = rt.block_on(async {
             let t0 = std::time::Instant::now();
             loop {
                 BLOCKING_GATE.store(false, std::sync::atomic::Ordering::Release);
                 tokio::task::yield_now().await;
+                if hold {
+                    // stalled pool: jobs stay queued behind the gate, only task progress counts
+                    if m.global_queue_depth() == 0 && m.worker_local_queue_depth(0) == 0 {
+                        break;
+                    }
+                    continue;
+                }
                 BLOCKING_GATE.store(true, std::sync::atomic::Ordering::Release);
                 // wait for the blocking pool to drain (threads exit right after their job) before
                 // any other task runs; command calls parked on pool threads are accounted for
@@ -477,6 +509,7 @@ impl World {
     }
 
     pub fn finish(mut self) -> (BTreeMap<String, u64>, u64, u64, Vec<String>) {
+        BLOCKING_GATE.store(true, std::sync::atomic::Ordering::Release);
         self.ctrl.end_run();
         if let Some(rt) = self.rt.take() {
             rt.shutdown_timeout(Duration::from_secs(5));
